@@ -736,6 +736,9 @@ func oracleC18(r *Result) ([]Violation, bool) {
 				// follower convergence through the periodic check: the check has just read a
 				// record naming X, the live record still names X, the instance follows
 				if id, ok := pcheckRead[sn.I]; ok {
+					// judged once, at the first quiescent point after the read was answered: a
+					// later reply of an older read may legitimately be processed afterwards
+					delete(pcheckRead, sn.I)
 					if rec := recOf(r, &e, sn.I); sn.Started && !sn.StopDone && !sn.InStop && !sn.IsLeader && !sn.Cut && !sn.Fine && rec != nil && rec.ID == id && sn.LeaderID != id {
 						s.add(e.T, "follower-leaderid-stale/periodic-check", "%s: the periodic check has just read the live record naming %q, but the follower's LeaderID() is %q at %v", sn.I, id, sn.LeaderID, e.T)
 					}
